@@ -3,6 +3,11 @@
   iteration panics, every diagnostic span lies inside the source, every iteration consumes input
   (so the fuel the loops are started with suffices), and the token stream handed to the parser
   only contains kinds the parser can meet.
+
+  The lemmas about `expect_*`, `parse_instr` and `parse_trap` come in two forms: primed
+  (`expectWhere_ok'` … `parseInstr_ok'`, `parseTrap_ok'`), which only ask that every token can be
+  displayed (`TokShown`; used by C15 for `parse_simple`, where any directive token may stand in
+  operand position), and unprimed corollaries for the whole-program stream (`TokIn`).
 -/
 import Lace.Proofs.AsmLex
 namespace Lace.Asm
@@ -19,6 +24,26 @@ def StreamKind : TokenKind → Prop
 parser can meet. -/
 def TokIn (total : Nat) (t : Token) : Prop :=
   t.span.offs + t.span.len ≤ total ∧ StreamKind t.kind
+
+/-- Token kinds `Display for TokenKind` can format (everything but white space, comments and the
+end of input): all that `parse_instr` / `parse_trap` and the `expect_*` family need of the tokens
+they look at in order not to panic.  The debugger's statement parser (`parse_simple`) lets every
+directive token through, so its stream satisfies this but not `StreamKind`. -/
+def ShowKind : TokenKind → Prop
+  | .whitespace => False
+  | .comment => False
+  | .eof => False
+  | _ => True
+
+/-- A token whose span lies inside the source and whose kind can be displayed. -/
+def TokShown (total : Nat) (t : Token) : Prop :=
+  t.span.offs + t.span.len ≤ total ∧ ShowKind t.kind
+
+theorem StreamKind.shown {k : TokenKind} (h : StreamKind k) : ShowKind k := by
+  cases k <;> simp_all [StreamKind, ShowKind]
+
+theorem TokIn.shown {total : Nat} {t : Token} (h : TokIn total t) : TokShown total t :=
+  ⟨h.1, h.2.shown⟩
 
 theorem join_ok {total : Nat} {a b : Span} (ha : a.offs + a.len ≤ total) (hb : b.offs + b.len ≤ total) :
     ∃ s, a.join? b = some s ∧ s.offs + s.len ≤ total := by
@@ -239,12 +264,15 @@ theorem ExpOk.diag_cast {α β α' β' : Type} {total : Nat} {toks toks' : List 
   | none => exact h.elim
   | some p => exact h
 
-theorem StreamKind.display_isSome {k : TokenKind} (h : StreamKind k) : ∃ s, k.display = some s := by
-  cases k <;> simp_all [StreamKind, TokenKind.display]
+theorem ShowKind.display_isSome {k : TokenKind} (h : ShowKind k) : ∃ s, k.display = some s := by
+  cases k <;> simp_all [ShowKind, TokenKind.display]
 
-theorem unexpectedDiag_ok {α β : Type} {total : Nat} {toks : List Token} {b : Bool} {t : Token}
-    (ht : TokIn total t) : ExpOk (α := α) (β := β) total toks b (unexpectedDiag t) := by
-  obtain ⟨s, hs⟩ := StreamKind.display_isSome ht.2
+theorem StreamKind.display_isSome {k : TokenKind} (h : StreamKind k) : ∃ s, k.display = some s :=
+  h.shown.display_isSome
+
+theorem unexpectedDiag_ok' {α β : Type} {total : Nat} {toks : List Token} {b : Bool} {t : Token}
+    (ht : TokShown total t) : ExpOk (α := α) (β := β) total toks b (unexpectedDiag t) := by
+  obtain ⟨s, hs⟩ := ShowKind.display_isSome ht.2
   simp only [unexpectedDiag, hs, ExpOk]
   exact ht.1
 
@@ -252,8 +280,8 @@ theorem eofDiag_ok {α β : Type} {total : Nat} {toks : List Token} {b : Bool} :
     ExpOk (α := α) (β := β) total toks b (eofDiag total) := by
   simp only [eofDiag, ExpOk]; omega
 
-theorem expectWhere_ok {total : Nat} (check : TokenKind → Bool) (toks : List Token)
-    (h : ∀ t ∈ toks, TokIn total t) :
+theorem expectWhere_ok' {total : Nat} (check : TokenKind → Bool) (toks : List Token)
+    (h : ∀ t ∈ toks, TokShown total t) :
     ExpOk total toks true (expectWhere total check toks) := by
   unfold expectWhere
   split
@@ -262,16 +290,16 @@ theorem expectWhere_ok {total : Nat} (check : TokenKind → Bool) (toks : List T
     split
     · simp only [ExpOk, if_true, List.length_cons]
       exact ⟨by omega, fun x hx => List.mem_cons_of_mem _ hx⟩
-    · exact unexpectedDiag_ok (h t (List.mem_cons_self))
+    · exact unexpectedDiag_ok' (h t (List.mem_cons_self))
 
 def Bits.valid : Bits → Prop
   | .signed n => 1 ≤ n ∧ n ≤ 15
   | .unsigned n => n ≤ 31
 
-theorem expectLit_ok {total : Nat} (bits : Bits) (hb : bits.valid) (toks : List Token)
-    (h : ∀ t ∈ toks, TokIn total t) :
+theorem expectLit_ok' {total : Nat} (bits : Bits) (hb : bits.valid) (toks : List Token)
+    (h : ∀ t ∈ toks, TokShown total t) :
     ExpOk total toks true (expectLit total bits toks) := by
-  have hw := expectWhere_ok isNumLit toks h
+  have hw := expectWhere_ok' isNumLit toks h
   unfold expectLit
   generalize hr : expectWhere total isNumLit toks = r at hw ⊢
   cases r with
@@ -349,9 +377,9 @@ theorem ExpOk.weaken {α β : Type} {total : Nat} {toks : List Token}
     obtain ⟨h3, h4⟩ := h
     exact ⟨by simp_all; omega, h4⟩
 
-theorem expectReg_ok {total : Nat} (toks : List Token) (h : ∀ t ∈ toks, TokIn total t) :
+theorem expectReg_ok' {total : Nat} (toks : List Token) (h : ∀ t ∈ toks, TokShown total t) :
     ExpOk total toks true (expectReg total toks) := by
-  have hw := expectWhere_ok isReg toks h
+  have hw := expectWhere_ok' isReg toks h
   unfold expectReg
   generalize hr : expectWhere total isReg toks = r at hw ⊢
   cases r with
@@ -373,48 +401,48 @@ theorem expectReg_ok {total : Nat} (toks : List Token) (h : ∀ t ∈ toks, TokI
           cases hk : t.kind <;> simp_all [isReg]
         · simp only [unexpectedDiag] at hr; split at hr <;> simp at hr
 
-theorem expectLitOrReg_ok {total : Nat} (toks : List Token) (h : ∀ t ∈ toks, TokIn total t) :
+theorem expectLitOrReg_ok' {total : Nat} (toks : List Token) (h : ∀ t ∈ toks, TokShown total t) :
     ExpOk total toks true (expectLitOrReg total toks) := by
   unfold expectLitOrReg
   split
   · exact eofDiag_ok
   · rename_i t ts
     split
-    · have hw := expectReg_ok (t :: ts) h
+    · have hw := expectReg_ok' (t :: ts) h
       generalize expectReg total (t :: ts) = r at hw ⊢
       cases r with
       | panic s => exact hw.elim
       | diag k s => exact hw.diag_cast
       | ok p => obtain ⟨a, ts', x⟩ := p; exact hw
-    · have hw := expectLit_ok (.signed 5) (by simp [Bits.valid]) (t :: ts) h
+    · have hw := expectLit_ok' (.signed 5) (by simp [Bits.valid]) (t :: ts) h
       generalize expectLit total (.signed 5) (t :: ts) = r at hw ⊢
       cases r with
       | panic s => exact hw.elim
       | diag k s => exact hw.diag_cast
       | ok p => obtain ⟨a, ts', x⟩ := p; exact hw
-    · exact unexpectedDiag_ok (h t List.mem_cons_self)
+    · exact unexpectedDiag_ok' (h t List.mem_cons_self)
 
-theorem expectLitOrLabel_ok {total : Nat} (tbl : SymTab) (line bits : Nat) (hb : 1 ≤ bits ∧ bits ≤ 15)
-    (toks : List Token) (h : ∀ t ∈ toks, TokIn total t) :
+theorem expectLitOrLabel_ok' {total : Nat} (tbl : SymTab) (line bits : Nat) (hb : 1 ≤ bits ∧ bits ≤ 15)
+    (toks : List Token) (h : ∀ t ∈ toks, TokShown total t) :
     ExpOk total toks true (expectLitOrLabel total tbl line bits toks) := by
   unfold expectLitOrLabel
   split
   · exact eofDiag_ok
   · rename_i t ts
     split
-    · have hw := expectWhere_ok (fun k => k = .label) (t :: ts) h
+    · have hw := expectWhere_ok' (fun k => k = .label) (t :: ts) h
       generalize expectWhere total (fun k => decide (k = .label)) (t :: ts) = r at hw ⊢
       cases r with
       | panic s => exact hw.elim
       | diag k s => exact hw.diag_cast
       | ok p => obtain ⟨a, ts', x⟩ := p; exact hw
-    · have hw := expectLit_ok (.signed bits) hb (t :: ts) h
+    · have hw := expectLit_ok' (.signed bits) hb (t :: ts) h
       generalize expectLit total (.signed bits) (t :: ts) = r at hw ⊢
       cases r with
       | panic s => exact hw.elim
       | diag k s => exact hw.diag_cast
       | ok p => obtain ⟨a, ts', x⟩ := p; exact hw
-    · exact unexpectedDiag_ok (h t List.mem_cons_self)
+    · exact unexpectedDiag_ok' (h t List.mem_cons_self)
 
 end Lace.Asm
 
@@ -427,71 +455,71 @@ macro "exp_step" hw:ident : tactic =>
              all_goals (rename_i heq; rw [heq] at $hw:ident)
              all_goals first | exact ($hw).elim | exact ExpOk.diag_cast $hw | skip))
 
-theorem piReg1_ok {total : Nat} (toks : List Token) (f : BitVec 3 → Stmt)
-    (h : ∀ t ∈ toks, TokIn total t) : ExpOk total toks false (piReg1 total toks f) := by
-  have hw := expectReg_ok toks h
+theorem piReg1_ok' {total : Nat} (toks : List Token) (f : BitVec 3 → Stmt)
+    (h : ∀ t ∈ toks, TokShown total t) : ExpOk total toks false (piReg1 total toks f) := by
+  have hw := expectReg_ok' toks h
   unfold piReg1
   exp_step hw
   exact hw.weaken
 
-theorem piLbl_ok {total : Nat} (tbl : SymTab) (line bits : Nat) (hb : 1 ≤ bits ∧ bits ≤ 15)
+theorem piLbl_ok' {total : Nat} (tbl : SymTab) (line bits : Nat) (hb : 1 ≤ bits ∧ bits ≤ 15)
     (toks : List Token) (f : Label → Stmt)
-    (h : ∀ t ∈ toks, TokIn total t) : ExpOk total toks false (piLbl total tbl line bits toks f) := by
-  have hw := expectLitOrLabel_ok tbl line bits hb toks h
+    (h : ∀ t ∈ toks, TokShown total t) : ExpOk total toks false (piLbl total tbl line bits toks f) := by
+  have hw := expectLitOrLabel_ok' tbl line bits hb toks h
   unfold piLbl
   exp_step hw
   exact hw.weaken
 
-theorem piRegLbl_ok {total : Nat} (tbl : SymTab) (line : Nat)
+theorem piRegLbl_ok' {total : Nat} (tbl : SymTab) (line : Nat)
     (toks : List Token) (f : BitVec 3 → Label → Stmt)
-    (h : ∀ t ∈ toks, TokIn total t) : ExpOk total toks false (piRegLbl total tbl line toks f) := by
-  have hw := expectReg_ok toks h
+    (h : ∀ t ∈ toks, TokShown total t) : ExpOk total toks false (piRegLbl total tbl line toks f) := by
+  have hw := expectReg_ok' toks h
   unfold piRegLbl
   exp_step hw
   rename_i r ts te _
   obtain ⟨h3, h4⟩ := hw
-  have := piLbl_ok tbl line 9 (by omega) ts (f r) (fun t ht => h t (h4 t ht))
+  have := piLbl_ok' tbl line 9 (by omega) ts (f r) (fun t ht => h t (h4 t ht))
   exact this.trans_ok (by simp at h3; omega) h4
 
-theorem piReg2_ok {total : Nat} (toks : List Token) (f : BitVec 3 → BitVec 3 → Stmt)
-    (h : ∀ t ∈ toks, TokIn total t) : ExpOk total toks false (piReg2 total toks f) := by
-  have hw := expectReg_ok toks h
+theorem piReg2_ok' {total : Nat} (toks : List Token) (f : BitVec 3 → BitVec 3 → Stmt)
+    (h : ∀ t ∈ toks, TokShown total t) : ExpOk total toks false (piReg2 total toks f) := by
+  have hw := expectReg_ok' toks h
   unfold piReg2
   exp_step hw
   rename_i a ts te _
   obtain ⟨h3, h4⟩ := hw
-  have hw2 := expectReg_ok ts (fun t ht => h t (h4 t ht))
+  have hw2 := expectReg_ok' ts (fun t ht => h t (h4 t ht))
   exp_step hw2
   exact (hw2.trans_ok (toks := toks) (by simp at h3; omega) h4).weaken
 
-theorem piReg2Lit_ok {total : Nat} (toks : List Token) (f : BitVec 3 → BitVec 3 → BitVec 8 → Stmt)
-    (h : ∀ t ∈ toks, TokIn total t) : ExpOk total toks false (piReg2Lit total toks f) := by
-  have hw := expectReg_ok toks h
+theorem piReg2Lit_ok' {total : Nat} (toks : List Token) (f : BitVec 3 → BitVec 3 → BitVec 8 → Stmt)
+    (h : ∀ t ∈ toks, TokShown total t) : ExpOk total toks false (piReg2Lit total toks f) := by
+  have hw := expectReg_ok' toks h
   unfold piReg2Lit
   exp_step hw
   rename_i a ts te _
   obtain ⟨h3, h4⟩ := hw
-  have hw2 := expectReg_ok ts (fun t ht => h t (h4 t ht))
+  have hw2 := expectReg_ok' ts (fun t ht => h t (h4 t ht))
   exp_step hw2
   rename_i b ts' te' _
   obtain ⟨h5, h6⟩ := hw2
-  have hw3 := expectLit_ok (.signed 6) (by simp [Bits.valid]) ts' (fun t ht => h t (h4 t (h6 t ht)))
+  have hw3 := expectLit_ok' (.signed 6) (by simp [Bits.valid]) ts' (fun t ht => h t (h4 t (h6 t ht)))
   exp_step hw3
   have h7 : ts'.length ≤ toks.length := by simp at h3 h5; omega
   exact (hw3.trans_ok (toks := toks) h7 (fun t ht => h4 t (h6 t ht))).weaken
 
-theorem piReg2Imm_ok {total : Nat} (toks : List Token) (f : BitVec 3 → BitVec 3 → ImmOrReg → Stmt)
-    (h : ∀ t ∈ toks, TokIn total t) : ExpOk total toks false (piReg2Imm total toks f) := by
-  have hw := expectReg_ok toks h
+theorem piReg2Imm_ok' {total : Nat} (toks : List Token) (f : BitVec 3 → BitVec 3 → ImmOrReg → Stmt)
+    (h : ∀ t ∈ toks, TokShown total t) : ExpOk total toks false (piReg2Imm total toks f) := by
+  have hw := expectReg_ok' toks h
   unfold piReg2Imm
   exp_step hw
   rename_i a ts te _
   obtain ⟨h3, h4⟩ := hw
-  have hw2 := expectReg_ok ts (fun t ht => h t (h4 t ht))
+  have hw2 := expectReg_ok' ts (fun t ht => h t (h4 t ht))
   exp_step hw2
   rename_i b ts' te' _
   obtain ⟨h5, h6⟩ := hw2
-  have hw3 := expectLitOrReg_ok ts' (fun t ht => h t (h4 t (h6 t ht)))
+  have hw3 := expectLitOrReg_ok' ts' (fun t ht => h t (h4 t (h6 t ht)))
   exp_step hw3
   have h7 : ts'.length ≤ toks.length := by simp at h3 h5; omega
   exact (hw3.trans_ok (toks := toks) h7 (fun t ht => h4 t (h6 t ht))).weaken
@@ -500,32 +528,102 @@ theorem ExpOk.refl_ok {total : Nat} {toks : List Token} {s : Stmt} :
     ExpOk (α := Stmt) (β := Option Nat) total toks false (.ok (s, toks, none)) :=
   ⟨by simp, fun _ h => h⟩
 
-theorem parseInstr_ok {total : Nat} (tbl : SymTab) (line : Nat) (kind : InstrKind)
-    (toks : List Token) (h : ∀ t ∈ toks, TokIn total t) :
+theorem parseInstr_ok' {total : Nat} (tbl : SymTab) (line : Nat) (kind : InstrKind)
+    (toks : List Token) (h : ∀ t ∈ toks, TokShown total t) :
     ExpOk total toks false (parseInstr total tbl line kind toks) := by
   cases kind <;> simp only [parseInstr]
   case call =>
-    have hw := expectWhere_ok (fun k => k = .label) toks h
+    have hw := expectWhere_ok' (fun k => k = .label) toks h
     exp_step hw
     exact hw.weaken
   all_goals first
-    | exact piReg1_ok toks _ h
-    | exact piReg2_ok toks _ h
-    | exact piReg2Imm_ok toks _ h
-    | exact piReg2Lit_ok toks _ h
-    | exact piRegLbl_ok tbl line toks _ h
-    | exact piLbl_ok tbl line _ (by omega) toks _ h
+    | exact piReg1_ok' toks _ h
+    | exact piReg2_ok' toks _ h
+    | exact piReg2Imm_ok' toks _ h
+    | exact piReg2Lit_ok' toks _ h
+    | exact piRegLbl_ok' tbl line toks _ h
+    | exact piLbl_ok' tbl line _ (by omega) toks _ h
     | exact ExpOk.refl_ok
 
-theorem parseTrap_ok {total : Nat} (kind : TrapKind)
-    (toks : List Token) (h : ∀ t ∈ toks, TokIn total t) :
+theorem parseTrap_ok' {total : Nat} (kind : TrapKind)
+    (toks : List Token) (h : ∀ t ∈ toks, TokShown total t) :
     ExpOk total toks false (parseTrap total kind toks) := by
   cases kind <;> simp only [parseTrap]
   case generic =>
-    have hw := expectLit_ok (.unsigned 8) (by simp [Bits.valid]) toks h
+    have hw := expectLit_ok' (.unsigned 8) (by simp [Bits.valid]) toks h
     exp_step hw
     exact hw.weaken
   all_goals exact ⟨by simp, fun _ h => h⟩
+end Lace.Asm
+
+namespace Lace.Asm
+
+/-! The statements about the whole-program stream (`TokIn`: the only directive is `.orig`) are
+corollaries of the primed ones (`TokShown`: any displayable kind). -/
+
+theorem unexpectedDiag_ok {α β : Type} {total : Nat} {toks : List Token} {b : Bool} {t : Token}
+    (ht : TokIn total t) : ExpOk (α := α) (β := β) total toks b (unexpectedDiag t) :=
+  unexpectedDiag_ok' ht.shown
+
+theorem expectWhere_ok {total : Nat} (check : TokenKind → Bool) (toks : List Token)
+    (h : ∀ t ∈ toks, TokIn total t) :
+    ExpOk total toks true (expectWhere total check toks) :=
+  expectWhere_ok' check toks (fun t ht => (h t ht).shown)
+
+theorem expectLit_ok {total : Nat} (bits : Bits) (hb : bits.valid) (toks : List Token)
+    (h : ∀ t ∈ toks, TokIn total t) :
+    ExpOk total toks true (expectLit total bits toks) :=
+  expectLit_ok' bits hb toks (fun t ht => (h t ht).shown)
+
+theorem expectReg_ok {total : Nat} (toks : List Token) (h : ∀ t ∈ toks, TokIn total t) :
+    ExpOk total toks true (expectReg total toks) :=
+  expectReg_ok' toks (fun t ht => (h t ht).shown)
+
+theorem expectLitOrReg_ok {total : Nat} (toks : List Token) (h : ∀ t ∈ toks, TokIn total t) :
+    ExpOk total toks true (expectLitOrReg total toks) :=
+  expectLitOrReg_ok' toks (fun t ht => (h t ht).shown)
+
+theorem expectLitOrLabel_ok {total : Nat} (tbl : SymTab) (line bits : Nat) (hb : 1 ≤ bits ∧ bits ≤ 15)
+    (toks : List Token) (h : ∀ t ∈ toks, TokIn total t) :
+    ExpOk total toks true (expectLitOrLabel total tbl line bits toks) :=
+  expectLitOrLabel_ok' tbl line bits hb toks (fun t ht => (h t ht).shown)
+
+theorem piReg1_ok {total : Nat} (toks : List Token) (f : BitVec 3 → Stmt)
+    (h : ∀ t ∈ toks, TokIn total t) : ExpOk total toks false (piReg1 total toks f) :=
+  piReg1_ok' toks f (fun t ht => (h t ht).shown)
+
+theorem piLbl_ok {total : Nat} (tbl : SymTab) (line bits : Nat) (hb : 1 ≤ bits ∧ bits ≤ 15)
+    (toks : List Token) (f : Label → Stmt)
+    (h : ∀ t ∈ toks, TokIn total t) : ExpOk total toks false (piLbl total tbl line bits toks f) :=
+  piLbl_ok' tbl line bits hb toks f (fun t ht => (h t ht).shown)
+
+theorem piRegLbl_ok {total : Nat} (tbl : SymTab) (line : Nat)
+    (toks : List Token) (f : BitVec 3 → Label → Stmt)
+    (h : ∀ t ∈ toks, TokIn total t) : ExpOk total toks false (piRegLbl total tbl line toks f) :=
+  piRegLbl_ok' tbl line toks f (fun t ht => (h t ht).shown)
+
+theorem piReg2_ok {total : Nat} (toks : List Token) (f : BitVec 3 → BitVec 3 → Stmt)
+    (h : ∀ t ∈ toks, TokIn total t) : ExpOk total toks false (piReg2 total toks f) :=
+  piReg2_ok' toks f (fun t ht => (h t ht).shown)
+
+theorem piReg2Lit_ok {total : Nat} (toks : List Token) (f : BitVec 3 → BitVec 3 → BitVec 8 → Stmt)
+    (h : ∀ t ∈ toks, TokIn total t) : ExpOk total toks false (piReg2Lit total toks f) :=
+  piReg2Lit_ok' toks f (fun t ht => (h t ht).shown)
+
+theorem piReg2Imm_ok {total : Nat} (toks : List Token) (f : BitVec 3 → BitVec 3 → ImmOrReg → Stmt)
+    (h : ∀ t ∈ toks, TokIn total t) : ExpOk total toks false (piReg2Imm total toks f) :=
+  piReg2Imm_ok' toks f (fun t ht => (h t ht).shown)
+
+theorem parseInstr_ok {total : Nat} (tbl : SymTab) (line : Nat) (kind : InstrKind)
+    (toks : List Token) (h : ∀ t ∈ toks, TokIn total t) :
+    ExpOk total toks false (parseInstr total tbl line kind toks) :=
+  parseInstr_ok' tbl line kind toks (fun t ht => (h t ht).shown)
+
+theorem parseTrap_ok {total : Nat} (kind : TrapKind)
+    (toks : List Token) (h : ∀ t ∈ toks, TokIn total t) :
+    ExpOk total toks false (parseTrap total kind toks) :=
+  parseTrap_ok' kind toks (fun t ht => (h t ht).shown)
+
 end Lace.Asm
 
 namespace Lace.Asm
